@@ -641,6 +641,34 @@ def observe(root, n, exp):
     return {"state": state, "extra": extra}
 
 
+def measure_sync_copy(base, cfg, exp):
+    """F-C04-c (observation): is the sync column of shanks b-d covered by check_NP24?  Damages it in
+    probe00b and calls check_NP24 on the object that just converted.  Measured, never a failure."""
+    from neuropixel import NP2Converter
+    kind, fixture, n, w, compressed = CONFIGS[cfg]
+    d = base / cfg / "syncprobe"
+    shutil.copytree(base / cfg / "init", d)
+    conv = NP2Converter(owner_path(d, 1, 0), post_check=False, compress=False)
+    conv.init_params(nwindow=NWINDOW)
+    try:
+        conv.process()
+        p = owner_path(d, 12, 0)
+        row = p.stat().st_size // NS_OF_W[w]
+        with builtins.open(p, "r+b") as f:
+            f.seek(5 * row + row - 2)
+            b = f.read(2)
+            f.seek(5 * row + row - 2)
+            f.write(bytes(x ^ 0x55 for x in b))
+        try:
+            conv.check_NP24()
+            return False
+        except AssertionError:
+            return True
+    finally:
+        release(conv)
+        shutil.rmtree(d, ignore_errors=True)
+
+
 def enc_obs(o):
     return [o["outcome"], o["checked"], o["already"], o["processed"], len(o["trace"])] + o["trace"] + o["state"]
 
@@ -1095,6 +1123,8 @@ def run(ctx):
                 exp = build_reference(base, cfg)
                 (base / cfg / "exp.json").write_text(json.dumps(exp))
                 ok_cfgs.append(cfg)
+                if cfg == "np24s4w2":
+                    ctx.measurements["sync_copy_of_other_shanks_is_verified"] = measure_sync_copy(base, cfg, exp)
             except AssertionError as e:
                 ctx.fail("fault-free conversion is not a valid conversion: %s" % e,
                          {"cfg": cfg, "runs": [mkrun()]}, {"clause": "reference"})
@@ -1185,8 +1215,11 @@ def run(ctx):
              "(post_check, delete_original, compress, overwrite) combinations; an exception injected before site "
              "call c (every c for the 1-shank and NP2.1 recordings, a sample for 4 shanks in quick) or inside "
              "mtscomp.compress, or a shank file damaged before check_NP24; followed by a plain re-run, a forced "
-             "re-run, a random run, or a run on a split shank file; evaluations = distinct histories, each "
-             "compared run by run with the model; non-trivial = the last run executed at least one site call",
+             "re-run, a random run, or a run on a split shank file; plus sequences of 2-5 method calls on ONE "
+             "converter object (process, check_NP24, delete_NP24, assignment of the option attributes; "
+             "exceptions caught in between; a process() on an object that has closed its reader runs in a forked "
+             "child); evaluations = distinct histories + distinct call sequences, each compared call by call with "
+             "the model; non-trivial = the last run (a later call of the sequence) executed at least one site call",
         samples=samples, evaluations=len(hists) + len(objs), distinct_nontrivial=len(nontrivial),
         extra={"input_distribution": dist, "exhaustive": False},
         assumptions=["mtscomp.compress is deterministic for a given input file",
@@ -1198,6 +1231,8 @@ def replay(ctx, data):
     if not inp:
         print(json.dumps(data, indent=1)[:3000])
         return 1
+    if inp.get("object"):
+        return replay_object(ctx, inp)
     cfg, runs = inp["cfg"], inp["runs"]
     base = Path(common.tmpdir(prefix="C04_replay_"))
     try:
@@ -1221,5 +1256,34 @@ def replay(ctx, data):
     print("property clauses failing on the implementation:", [b["what"] for b in bad])
     ids = common.coq_mismatches(PROP, HEADER, [common.flat_cases_term(
         0, enc_hist(cfg, hr), [x for o in ho for x in enc_obs(o)])])
+    print("kernel-evaluated model agrees with implementation:", not ids)
+    return 1 if (bad or ids) else 0
+
+
+def replay_object(ctx, inp):
+    cfg, opts, calls = inp["cfg"], inp["opts"], inp["calls"]
+    base = Path(common.tmpdir(prefix="C04_replay_"))
+    try:
+        exp = build_reference(base, cfg)
+        d = base / "obj"
+        shutil.copytree(base / cfg / "init", d)
+        obs = run_object(d, cfg, exp, opts, calls)
+        init = observe((base / cfg / "init").resolve(), CONFIGS[cfg][2], exp)["state"]
+    finally:
+        shutil.rmtree(base, ignore_errors=True)
+    calls = calls[:len(obs)]
+    print("one object, options (post_check, delete_original, compress) =", opts)
+    for c, o in zip(calls, obs):
+        print("call", {0: "process", 1: "check_NP24", 2: "delete_NP24", 3: "set options"}[c["ct"]], c)
+        print("  implementation: outcome %s check_completed %s reader closed before %s aux %s %s" % (
+            o["outcome"], o["checked"], o["closed_before"], o["aux"], o.get("exc", "")))
+        print("  trace", o["trace"])
+        print("  state", o["state"], "extra", o["extra"])
+    n0 = len(ctx.oracle_failures)
+    oracle_object(ctx, cfg, opts, calls, obs, init, set())
+    bad = ctx.oracle_failures[n0:]
+    print("property clauses failing on the implementation:", [b["what"] for b in bad])
+    ids = common.coq_mismatches(PROP, HEADER, [common.flat_cases_term(
+        0, enc_objseq(cfg, opts, calls), [x for o in obs for x in enc_obs(o)])])
     print("kernel-evaluated model agrees with implementation:", not ids)
     return 1 if (bad or ids) else 0
